@@ -410,6 +410,12 @@ func TestWorker(t *testing.T) {
 		if res.Verdict == "violation" && stopOnViol {
 			break
 		}
+		if sc.Engine == "F" && res.Leftover {
+			// goroutines of this bubble are blocked for ever (e.g. on a
+			// package-level condition variable of the library): a later
+			// bubble waking them is a runtime fatal error. Fresh process.
+			break
+		}
 		if sc.Engine == "R" && os.Getenv("VERIF_CONTINUE") == "" {
 			// real sockets, real goroutines (net/http, gorilla): they may outlive
 			// the run, and must never meet a later simulated world: fresh process
